@@ -405,7 +405,12 @@ impl VM {
     pub fn fork_current_thread(&mut self, jump_target: u32) -> Result<()> {
         // It is a programmer error to ask for a thread to be forked when none exists,
         // so we forward the error immediately.
-        let new_thread = self.current_thread_mut()?.fork(jump_target);
+        let mut new_thread = self.current_thread_mut()?.fork(jump_target);
+
+        // The fork happens while the forking instruction is executing, before its gas has been
+        // charged to the current thread. The new thread has executed that instruction too, so it
+        // is charged for it here.
+        new_thread.consume_gas(self.current_instruction()?.min_gas_cost());
         self.enqueue_thread(new_thread);
 
         Ok(())
